@@ -102,13 +102,13 @@ func allConst(bs []*Term) bool {
 
 func registerStdModels() {
 	// ---- index / compare leaves
-	reg("internal/bytealg.IndexByteString internal/bytealg.IndexByte strings.IndexByte bytes.IndexByte", func(it *Interp, fr *frame, fn *ssa.Function, args []Value) Value {
+	reg("internal/bytealg.IndexByteString internal/bytealg.IndexByte strings.IndexByte bytes.IndexByte internal/stringslite.IndexByte", func(it *Interp, fr *frame, fn *ssa.Function, args []Value) Value {
 		return mkInt(int64(it.indexBytes(anyBytes(args[0]), []*Term{args[1].(*Term)})))
 	})
 	reg("internal/bytealg.LastIndexByteString internal/bytealg.LastIndexByte strings.LastIndexByte bytes.LastIndexByte", func(it *Interp, fr *frame, fn *ssa.Function, args []Value) Value {
 		return mkInt(int64(it.lastIndexBytes(anyBytes(args[0]), []*Term{args[1].(*Term)})))
 	})
-	reg("internal/bytealg.IndexString internal/bytealg.Index strings.Index bytes.Index", func(it *Interp, fr *frame, fn *ssa.Function, args []Value) Value {
+	reg("internal/bytealg.IndexString internal/bytealg.Index strings.Index bytes.Index internal/stringslite.Index", func(it *Interp, fr *frame, fn *ssa.Function, args []Value) Value {
 		return mkInt(int64(it.indexBytes(anyBytes(args[0]), anyBytes(args[1]))))
 	})
 	reg("strings.LastIndex bytes.LastIndex", func(it *Interp, fr *frame, fn *ssa.Function, args []Value) Value {
